@@ -81,15 +81,21 @@ def template (append args dshpath : Option Str) : List Str :=
   splitBlank ((match append with | some a => a ++ [' '] | none => []) ++ args.getD defaultArgs)
     ++ (match dshpath with | some p => [p] | none => [])
 
-/-- the vector handed to pipecmd -/
-def sshArgv (append args dshpath : Option Str) (luser ruser : Str) (pcp : Bool)
+/-- proposed repair of F09-SSHPCT (findings/C09-sshpct.patch): ssh_argv_create doubles every '%' of
+    a command word, so that pipecmd's formatting gives the word back unchanged -/
+def escapePct : Str → Str
+  | [] => []
+  | c :: rest => if c = '%' then '%' :: '%' :: escapePct rest else c :: escapePct rest
+
+/-- the vector handed to pipecmd (`esc`: with the repair) -/
+def sshArgv (esc : Bool) (append args dshpath : Option Str) (luser ruser : Str) (pcp : Bool)
     (words : List Str) (cmd : Str) : List Str :=
   fixup (template append args dshpath) (luser != ruser) ++
-    (if pcp || words.isEmpty then [cmd] else words)
+    ((if pcp || words.isEmpty then [cmd] else words).map fun w => if esc then escapePct w else w)
 
 /-- what execvp ("ssh", ...) is called with; `none` = undefined behaviour (unrepaired code only) -/
-def sshCall (v : Variant) (e : Env) (append args dshpath : Option Str) (luser : Str) (pcp : Bool)
+def sshCall (v : Variant) (esc : Bool) (e : Env) (append args dshpath : Option Str) (luser : Str) (pcp : Bool)
     (words : List Str) (cmd tail : Str) : Option (List Str) :=
-  (cmdArgs v e "ssh".toList (sshArgv append args dshpath luser e.user pcp words cmd) tail).map execArgv
+  (cmdArgs v e "ssh".toList (sshArgv esc append args dshpath luser e.user pcp words cmd) tail).map execArgv
 
 end PdshVerif.Exec.Ssh
